@@ -282,6 +282,9 @@ def read_facts(src):
             v = f()
             summary[key] = json.loads(json.dumps(v))     # tuples -> lists, as in the snapshot
         except Unreadable as ex:
+            if not (key.startswith("steps_") or key.startswith("knobs_")):
+                # no soft pin without a proof that the differential observes the fact: hard
+                raise TieError("%s: %s" % (key, ex))
             if key not in snap:
                 raise TieError("%s unreadable (%s) and no snapshot" % (key, ex))
             summary[key] = snap[key]
@@ -366,7 +369,7 @@ def translate():
         except TieError:
             order = None
         if order is None:
-            fails.append("unreadable: add_%s_listener: validation of sozu_id_header / map insertion not recognised; the model validates before inserting" % kind)
+            fails.append("T-steps: add_%s_listener: validation of sozu_id_header / map insertion not recognised; the model validates before inserting" % kind)
         elif not order:
             fails.append("T-steps: add_%s_listener no longer validates listener.sozu_id_header before the map entry (model: add_listener)" % kind)
     for kind in ("tcp", "udp"):
@@ -376,7 +379,7 @@ def translate():
         except TieError:
             order = None
         if order is None:
-            fails.append("unreadable: add_%s_frontend: the other-cluster test / bucket creation not recognised; the model refuses an address bound to another cluster before creating the bucket" % kind)
+            fails.append("T-steps: add_%s_frontend: the other-cluster test / bucket creation not recognised; the model refuses an address bound to another cluster before creating the bucket" % kind)
         elif not order:
             fails.append("T-steps: add_%s_frontend no longer refuses an address bound to another cluster before creating the bucket (model: addr_elsewhere)" % kind)
     for fn, want in MODEL_CERT_EVENTS.items():
@@ -386,13 +389,12 @@ def translate():
     return fails, summary
 
 
-TRANSLATE_FALLBACK = ("every fact the translator reads is observed by the differential run on generated cases: the order of "
-                      "validations and assignments of the patch handlers (a rejected patch that changed a field is a C07 oracle "
-                      "violation; patches with one bad validated field among good ones are enumerated), the patchable field list, "
-                      "flood-knob minima and merged answer fields (every patch is dumped field by field and compared with the model, "
-                      "values 0/1/2 around the minima), the event order of add/replace_certificate (bad PEM / bad X.509 / unknown "
-                      "address cases with full-state comparison), add-listener validation and the one-cluster-per-address rule "
-                      "(result codes and dumps)")
+TRANSLATE_FALLBACK = ("soft pins: the step lists of the four update_*_listener handlers and the flood-knob minima. Both are observed by "
+                      "the differential run: every patch is applied to the real listener and the whole listener is dumped field by "
+                      "field and compared with the model (a dropped / extra / reordered assignment, or a validation moved below an "
+                      "assignment, changes a dump or makes the C07 oracle report a rejected patch that changed a field); the "
+                      "generator draws knob values at minimum-1, minimum, minimum+1 so a changed minimum flips a result code. "
+                      "Tested with breaking variants in unreadable spellings (harmless/ in the report). Every other pin is hard")
 
 
 if __name__ == "__main__":
@@ -539,10 +541,17 @@ def patch_value(rng, name, want_bad=None):
         return 0
     if "lifetime" in name and rng.random() < 0.2:
         return 1 << 40
+    mn = dict(summary().get("knobs_http", []) + summary().get("knobs_https", [])).get(name)
+    if mn is not None:
+        if want_bad is True:
+            return rng.choice([0, mn - 1])
+        if want_bad is False:
+            return rng.choice([mn, mn, mn + 1, 7, 60, 4294967295])
+        return rng.choice([0, mn - 1, mn, mn + 1, 7])
     if want_bad is True:
-        return rng.choice([0, 0, 1]) if name == "h2_stream_shrink_ratio" else 0
+        return 0
     if want_bad is False:
-        return rng.choice([2, 3, 7, 60, 4294967295])
+        return rng.choice([1, 2, 3, 7, 60, 4294967295])
     return rng.choice(NUMS)
 
 
